@@ -27,6 +27,7 @@ import (
 type CmdSpec struct {
 	Kind   string // bootstrap | rotate | wipe
 	Ow     bool
+	Kg     bool   // --keep_going
 	Serial int    // bootstrap: initial signing serial; rotate: override (0 = default)
 	What   string // wipe: ca | keys | all
 	T      int
@@ -37,7 +38,13 @@ func (c CmdSpec) String() string {
 	case "wipe":
 		return "wipeout " + c.What
 	case "bootstrap":
+		if c.Kg {
+			return fmt.Sprintf("bootstrap(serial=%d,overwrite=%v,keep_going)", c.Serial, c.Ow)
+		}
 		return fmt.Sprintf("bootstrap(serial=%d,overwrite=%v)", c.Serial, c.Ow)
+	}
+	if c.Kg {
+		return fmt.Sprintf("rotate(override=%d,overwrite=%v,keep_going)", c.Serial, c.Ow)
 	}
 	return fmt.Sprintf("rotate(override=%d,overwrite=%v)", c.Serial, c.Ow)
 }
@@ -51,7 +58,8 @@ func parseCmd(e Event) (CmdSpec, error) {
 	if len(p) != 3 {
 		return c, fmt.Errorf("bad command params %q", e.Out)
 	}
-	c.Ow = p[0] == "ow"
+	c.Ow = p[0] == "ow" || p[0] == "owkg"
+	c.Kg = p[0] == "kg" || p[0] == "owkg"
 	fmt.Sscanf(p[1], "%d", &c.Serial)
 	fmt.Sscanf(p[2], "%d", &c.T)
 	return c, nil
@@ -69,6 +77,9 @@ func (c CmdSpec) args(at time.Time) []string {
 		if c.Ow {
 			a = append(a, "--overwrite")
 		}
+		if c.Kg {
+			a = append(a, "--keep_going")
+		}
 		return a
 	}
 	a := []string{"rotate", "--timestamp", ts(at)}
@@ -77,6 +88,9 @@ func (c CmdSpec) args(at time.Time) []string {
 	}
 	if c.Ow {
 		a = append(a, "--overwrite")
+	}
+	if c.Kg {
+		a = append(a, "--keep_going")
 	}
 	return a
 }
@@ -126,10 +140,17 @@ type nodeState struct {
 	everNames map[string]bool // all key names seen in this epoch
 	disturbed bool            // a command failed / was refused / partial wipeout since the last full wipeout
 	boots     int
+	// a bootstrap ran over an authority that had already rotated (since the last key wipeout): the
+	// rotated key versions stay live although the primary is the first version again (known finding);
+	// later consequences of that state are keyed ":after-rebootstrap"
+	rebootOverRotated bool
+	// a --keep_going command left certificates in place that do not certify the keys now in use
+	// (known finding): the rest of such a history is only checked for no-clobber and wipeout
+	staleByKeepGoing bool
 }
 
 func (n nodeState) clone() nodeState {
-	c := nodeState{epochRot: map[string]bool{}, everNames: map[string]bool{}, disturbed: n.disturbed, boots: n.boots}
+	c := nodeState{epochRot: map[string]bool{}, everNames: map[string]bool{}, disturbed: n.disturbed, boots: n.boots, rebootOverRotated: n.rebootOverRotated, staleByKeepGoing: n.staleByKeepGoing}
 	for k := range n.epochRot {
 		c.epochRot[k] = true
 	}
@@ -213,6 +234,7 @@ func checkCommand(run *vk.Run, a *Authority, st *nodeState, c CmdSpec, at time.T
 			}
 			st.epochRot = map[string]bool{}
 			st.everNames = map[string]bool{}
+			st.rebootOverRotated = false
 		}
 		if c.What == "all" || c.What == "ca" {
 			if len(after) != 0 {
@@ -220,6 +242,7 @@ func checkCommand(run *vk.Run, a *Authority, st *nodeState, c CmdSpec, at time.T
 			}
 		}
 		if c.What == "all" {
+			st.staleByKeepGoing = false
 			if _, perr := ProbeEndorse(a, at); perr == nil {
 				viol("wipeout-still-usable", "after wipeout all the authority still endorses")
 			}
@@ -250,9 +273,61 @@ func checkCommand(run *vk.Run, a *Authority, st *nodeState, c CmdSpec, at time.T
 		viol("missing-cert:"+c.Kind, "after successful %s the root or primary certificate cannot be read back (%v)", c, rerr)
 		return
 	}
+	if st.staleByKeepGoing {
+		return // see nodeState.staleByKeepGoing
+	}
+	if c.Kg {
+		// --keep_going leaves existing objects and manifest entries alone, so the certificates on record
+		// need not have been issued by this command: what must still hold is the chain of trust between
+		// the keys now in use and the certificates now on record
+		certifies := func(cert *x509.Certificate, key string) bool {
+			pub := a.PublicKeyOf(key)
+			cp, isRSA := cert.PublicKey.(*rsa.PublicKey)
+			return pub != nil && isRSA && pub.N.Cmp(cp.N) == 0 && pub.E == cp.E
+		}
+		rootName, _ := kc.CA.PrimaryRootKeyVersion(fxCtx())
+		broken := ""
+		switch {
+		case !certifies(root, rootName):
+			broken = fmt.Sprintf("the stored root certificate does not certify the root key %q now in use", rootName)
+		case !certifies(primCert, prim):
+			broken = fmt.Sprintf("the certificate on record for the primary signing key %q certifies another key", prim)
+		case primCert.CheckSignatureFrom(root) != nil:
+			broken = fmt.Sprintf("the certificate on record for the primary signing key %q is not issued by the stored root", prim)
+		}
+		if broken != "" {
+			shape := c.Kind
+			switch {
+			case c.Kind == "bootstrap" && c.Ow:
+				shape = "bootstrap-overwrite"
+			case c.Kind == "bootstrap" && len(namesBefore) == 0:
+				shape = "bootstrap-after-key-wipeout"
+			case c.Kind == "bootstrap":
+				shape = "bootstrap-over-live-keys"
+			case c.Kind == "rotate" && c.Serial != 0:
+				shape = "rotate-serial-override"
+			}
+			viol("keep-going-stale-certificate:"+shape, "%s succeeded with --keep_going but %s", c, broken)
+			st.staleByKeepGoing = true
+		}
+		if c.Kind == "bootstrap" {
+			st.boots++
+		}
+		if c.Kind == "rotate" {
+			st.epochRot[prim] = true
+		}
+		return
+	}
 	rb := ""
 	if rebootstrap {
 		rb = ":rebootstrap"
+	}
+	if rebootstrap && len(st.epochRot) > 0 {
+		st.rebootOverRotated = true
+	}
+	after2 := ""
+	if st.rebootOverRotated && !rebootstrap {
+		after2 = ":after-rebootstrap"
 	}
 	if c.Kind == "bootstrap" {
 		st.boots++
@@ -309,7 +384,7 @@ func checkCommand(run *vk.Run, a *Authority, st *nodeState, c CmdSpec, at time.T
 			viol("rotate-no-new-key", "rotation succeeded but the primary is still %q", prim)
 		}
 		if st.epochRot[prim] && !st.disturbed {
-			viol("name-reuse", "rotation reused key-version name %q", prim)
+			viol("name-reuse"+after2, "rotation reused key-version name %q", prim)
 		}
 		if st.epochRot[prim] && st.disturbed {
 			// reuse after a failed attempt is the documented leftover case; not a violation
@@ -326,7 +401,7 @@ func checkCommand(run *vk.Run, a *Authority, st *nodeState, c CmdSpec, at time.T
 			continue
 		}
 		if canSign(a, n) {
-			viol("non-primary-signs"+rb, "key %q is not the primary (%q) but can still sign", n, prim)
+			viol("non-primary-signs"+rb+after2, "key %q is not the primary (%q) but can still sign", n, prim)
 		}
 	}
 	if !canSign(a, prim) {
@@ -392,6 +467,11 @@ func RunC12(run *vk.Run) {
 			// quick tier: the in-memory combination runs every history, the disk/storage-backed
 			// ones a seeded quarter of them
 			if run.IsQuick() && ci > 0 && (nh+int(run.Seed)+ci)%4 != 0 {
+				continue
+			}
+			// quick tier: histories with a --keep_going command are four times as many as without;
+			// a seeded fifth of them is run (all of them in the thorough tier)
+			if run.IsQuick() && strings.Contains(key, "kg,") && (nh+int(run.Seed)*3+ci)%5 != 0 {
 				continue
 			}
 			cur := roots[cb]
